@@ -23,7 +23,7 @@ OBLIGATIONS = [
        bounds="one model, chain of 3 atoms with coordinates m/8, |m| <= 48 symbolic, 2 axis-aligned orthorhombic cells: every atom moves by a lattice vector; consecutive atoms end one minimum-image displacement apart. NOT covered symbolically: the rotated cell (solver unknown within 120 s) and stacks of models (the two-model formula does not finish); both are exercised on concrete wrapped chains in sx_geometry_concrete"),
     SX("sx_geometry_concrete", "sx_c15", "ob_geometry_concrete", cls="E", quick=600, thorough=1800, parts={"quick": 6, "thorough": 6},
        functions=[S + "geometry.py:distance/angle/dihedral/displacement/index_*/centroid (real numpy)", S + "transform.py:translate/rotate/rotate_centered/rotate_about_axis/align_vectors/orient_principal_components (real numpy)", S + "box.py:vectors_from_unitcell/unitcell_from_vectors/is_orthogonal/remove_pbc_from_coord/remove_pbc (real numpy)"],
-       bounds="every 4-tuple of distinct points from a menu of 5 (thorough 7) x 5 rotation axes x 5 angles + translation x 4 argument-shape combinations ((3,), (n,3), (m,n,3), mixed): values equal the float64 definitions written in the harness (tolerance 2e-4), before and after the rigid motion; index variants (also periodic: own box, explicit box overriding it, explicit box without own box, plain coordinates == coordinate-based functions with that box); distance / angle / signed dihedral unchanged by translate, rotate, rotate_centered, rotate_about_axis, align_vectors and orient_principal_components (7 orders, arrays and coordinates); 3 cell length sets x 5 angle sets through unit cell <-> box vectors; chains of 8 atoms wrapped arbitrarily in 7 cells as array and as stacks of 1..3 models through remove_pbc_from_coord; remove_pbc on structures (two molecules + an ion, with a BondList or by chains, 7 cells x array / stacks of 1..2 models x 3 selections x 3 wrappings): lattice moves only, molecules reassembled, centroids inside the box, unselected atoms and everything but coordinates untouched"),
+       bounds="every 4-tuple of distinct points from a menu of 5 (thorough 7) x 5 rotation axes x 5 angles + translation x 4 argument-shape combinations ((3,), (n,3), (m,n,3), mixed): values equal the float64 definitions written in the harness (tolerance 2e-4), before and after the rigid motion; index variants (also periodic: own box, explicit box overriding it, explicit box without own box, plain coordinates == coordinate-based functions with that box); distance / angle / signed dihedral unchanged by translate, rotate, rotate_centered, rotate_about_axis, align_vectors and orient_principal_components (7 orders, arrays and coordinates); 3 cell length sets x 5 angle sets through unit cell <-> box vectors; chains of 8 atoms wrapped arbitrarily in 7 cells as array and as stacks of 1..3 models through remove_pbc_from_coord; remove_pbc on structures (two molecules + an ion, with a BondList or by chains, 7 cells x array / stacks of 1..2 models x 3 selections x 3 wrappings): lattice moves only, molecules reassembled, centroids inside the box, unselected atoms and everything but coordinates untouched; the unit cell of each menu box rotated with the whole system (4 rotations, float32) equals the cell it was built from and converts back to a congruent box (equal Gram matrix)"),
 ]
 EXPLANATION = "C15 (periodic clauses symbolically; definitions, rigid-motion invariance, cell conversion and reassembly on concrete inputs): displacement is a shortest periodic image and box helpers act by lattice vectors."
 ASSUMPTIONS = ["real-number semantics: float32/float64 rounding of numpy is outside the claim",
